@@ -422,6 +422,7 @@ func runCode(rep *vh.Report, env vh.Env, stacks []*stack, n, only int) {
 		s := mkSession(tag, time.Duration(120+r.Intn(7000))*time.Second, time.Duration(8000+r.Intn(70000))*time.Second)
 		now := time.Now()
 		tr := codeTruth{Class: slot, Sig: slot, sess: s}
+		nearRT := ""
 		var codes []string
 		codeInQuery := false
 		fail := ""
@@ -519,6 +520,13 @@ func runCode(rep *vh.Report, env vh.Env, stacks []*stack, n, only int) {
 			} else {
 				tr.Class = "near-deadline:" + which
 				tr.DontCare = "near-deadline"
+				// should the authenticator decide to renew such a session's token while redeeming, the
+				// identity provider answers - and the answer then shows in the body, which must echo the
+				// SEALED session (added after seeded change C08m: /redeem renewing tokens about to expire)
+				if s.RefreshToken != "" {
+					nearRT = s.RefreshToken
+					as.IdP.Set("refresh", nearRT, sut.TokenOK("renewed-"+tag, "renewed-rt-"+tag, 3600))
+				}
 			}
 			codes = []string{as.SealCode(s)}
 		case "corrupted", "truncated", "reencoded":
@@ -630,6 +638,14 @@ func runCode(rep *vh.Report, env vh.Env, stacks []*stack, n, only int) {
 		pl := payload{hidden: map[string]string{"access_token": tr.sess.AccessToken, "refresh_token": tr.sess.RefreshToken, "email": tr.sess.Email}}
 		o := st.send(w, ep, pl, map[string]string{"idp_client_secret": as.IdPSecret})
 		rep.Eval()
+		if nearRT != "" {
+			n := len(as.IdP.Calls("refresh", nearRT))
+			st.attribute(n)
+			as.IdP.Unset("refresh", nearRT)
+			if n > 0 {
+				rep.Count("redeem_near_deadline_idp_refresh_calls", n)
+			}
+		}
 
 		kc := codeCase{Index: i, Stack: si, Truth: tr, IDPlace: idPlace, SecPlace: secPlace, Code: strings.Join(codes, " | "), Target: w.target(),
 			Status: o.rs.Status, Email: tr.sess.Email, RefreshIn: tr.sess.RefreshDeadline.Sub(now).Seconds(), LifetimeIn: tr.sess.LifetimeDeadline.Sub(now).Seconds(), Leaks: o.leaks}
